@@ -72,9 +72,9 @@ func NewSocketPair() (*Socket, *Socket, error) {
 		return nil, nil, fmt.Errorf("new socket pair: socketpair: %w", err)
 	}
 
+	// NewSocket takes fd over and releases it also when it fails
 	ins, err := NewSocket(fd[0])
 	if err != nil {
-		syscall.Close(fd[0])
 		syscall.Close(fd[1])
 		return nil, nil, fmt.Errorf("new socket pair: sender: %w", err)
 	}
@@ -82,7 +82,6 @@ func NewSocketPair() (*Socket, *Socket, error) {
 	outs, err := NewSocket(fd[1])
 	if err != nil {
 		ins.Close()
-		syscall.Close(fd[1])
 		return nil, nil, fmt.Errorf("new socket pair: receiver: %w", err)
 	}
 
